@@ -377,6 +377,86 @@ def corpus():
     ]
 
 
+def gen_pipeline_case(rng):
+    """a batch as the ranking task builds it (`compute_batch_ranking`): text rows, the CLI's missing-value symbols among the values"""
+    names = rng.sample(['a', 'b', 'c', 'user id', 'é'], rng.choice([2, 3, 4]))
+    n = rng.choice([3, 5, 9, 20, 40])
+    pool = ['', '{}', 'x', 'y', '1', '11', 'NA', ' ']
+    cols = [[nm, [rng.choice(pool) for _ in range(n)]] for nm in names]
+    cols.insert(rng.randrange(len(cols) + 1), ['label', [rng.choice(['0', '1']) for _ in range(n)]])
+    return {'pipeline': True, 'cols': cols, 'order': rng.choice([2, 2, 3]), 'missing': rng.choice([',{}', ',{}', ',{},NA', 'NA']),
+            'heuristic': rng.choice(['MI-numba-randomized', 'MI-numba-randomized', 'MI-numba-3mr'])}
+
+
+def evaluate_pipeline(ctx: Ctx, cases):
+    """oracle only: in the frame that compute_batch_ranking hands to the ranker every ` AND ` / ` AND_REL ` column over original
+    columns takes equal values on two rows iff the rows agree on every constituent; the original columns are untouched"""
+    import logging
+
+    from outrank import core_ranking as cr
+    from outrank.core_utils import BatchRankingSummary
+    lg = logging.getLogger('c10-null')
+    lg.disabled = True
+    for c in cases:
+        ctx.evaluations += 1
+        ctx.count('interaction-values-on-the-pipeline-path')
+        names = [nm for nm, _ in c['cols']]
+        rows = [list(r) for r in zip(*[v for _, v in c['cols']])]
+        args = types.SimpleNamespace(
+            task='ranking', minibatch_size=2 ** 14, output_folder='ranking_outputs', data_source='csv-raw', data_path=None, subsampling=1,
+            combination_number_upper_bound=1000, missing_value_symbols=c['missing'], heuristic=c['heuristic'],
+            include_noise_baseline_features='False', include_cardinality_in_feature_names='True', image_format='pdf', num_threads=1,
+            label_column='label', max_unique_hist_constraint=30000, transformers='none', rare_value_count_upper_bound=1, feature_set_focus=None,
+            interaction_order=c['order'], reference_model_JSON='', target_ranking_only='True', explode_multivalue_features='False',
+            subfeature_mapping='False', num_synthetic_features=100, tldr='True', num_synthetic_rows=1000, generator_type='naive',
+            output_synthetic_df_name='x', disable_tqdm='True', mi_stratified_sampling_ratio=1.0)
+        seen = {}
+        orig = (cr.mixed_rank_graph, cr.compute_cardinalities)
+
+        def fake_rank(df, a, pool, pbar):
+            seen['frame'] = df.copy()
+            return BatchRankingSummary([], {})
+        for g in (cr.GLOBAL_CARDINALITY_STORAGE, cr.GLOBAL_COUNTS_STORAGE, cr.GLOBAL_RARE_VALUE_STORAGE, cr.GLOBAL_PRIOR_COMB_COUNTS, cr.IGNORED_VALUES):
+            g.clear()
+        show = (f'compute_batch_ranking (interaction_order={c["order"]}, heuristic={c["heuristic"]}, missing_value_symbols={c["missing"]!r}) on the rows '
+                f'{rows[:6]}{"…" if len(rows) > 6 else ""} of columns {names}')
+        logging.disable(logging.CRITICAL)
+        try:
+            cr.mixed_rank_graph = fake_rank
+            cr.compute_cardinalities = lambda *a, **k: None
+            cr.compute_batch_ranking([r[:] for r in rows], set(), args, None, names, lg, PB())
+        except Exception as e:   # noqa: BLE001
+            ctx.oracle_fail('pipeline-raises', f'{show}: raised {type(e).__name__}: {e}', {'pipeline_case': c})
+            continue
+        finally:
+            cr.mixed_rank_graph, cr.compute_cardinalities = orig
+            logging.disable(logging.NOTSET)
+            for g in (cr.GLOBAL_CARDINALITY_STORAGE, cr.GLOBAL_COUNTS_STORAGE, cr.GLOBAL_RARE_VALUE_STORAGE, cr.GLOBAL_PRIOR_COMB_COUNTS, cr.IGNORED_VALUES):
+                g.clear()
+        df = seen.get('frame')
+        if df is None:
+            ctx.count('pipeline-path:ranker-not-reached')
+            continue
+        colv = dict((nm, v) for nm, v in c['cols'])
+        if any(nm not in df.columns or [str(x) for x in df[nm].tolist()] != colv[nm] for nm in names):
+            ctx.oracle_fail('originals', f'{show}: an original column is missing from / changed in the frame handed to the ranker', {'pipeline_case': c})
+            continue
+        for nm in df.columns:
+            nm = str(nm)
+            for join in (' AND_REL ', ' AND '):
+                parts = nm.split(join)
+                if len(parts) >= 2 and all(p in colv and p != 'label' for p in parts):
+                    vals = [str(x) for x in df[nm].tolist()]
+                    tuples = list(zip(*[colv[p] for p in parts]))
+                    if pattern(vals) != pattern(tuples):
+                        i, j = next((i, j) for i in range(len(vals)) for j in range(len(vals)) if (vals[i] == vals[j]) != (tuples[i] == tuples[j]))
+                        ctx.oracle_fail('kernel', f'{show}: column {nm!r}: rows {i} and {j} have constituent values {tuples[i]} / {tuples[j]} but interaction '
+                                        f'values {vals[i]!r} / {vals[j]!r}', {'pipeline_case': c})
+                    else:
+                        ctx.nontrivial.add(('pipeline', nm, tuple(tuples)))
+                    break
+
+
 def gen_reference_case(rng):
     """interaction features requested through --reference_model_JSON: combinations of DIFFERENT arity in one model file"""
     names = rng.sample(['f0', 'f1', 'f2', 'f3', 'g', 'user id', 'é'], rng.choice([3, 4, 5]))
@@ -454,12 +534,15 @@ def run(ctx: Ctx):
     cases = corpus() + [gen_case(ctx.rng, ctx.thorough()) for _ in range(n)]
     evaluate(ctx, cases)
     evaluate_reference(ctx, [gen_reference_case(ctx.rng) for _ in range(3000 if ctx.thorough() else 300)])
+    evaluate_pipeline(ctx, [gen_pipeline_case(ctx.rng) for _ in range(2000 if ctx.thorough() else 250)])
     birthday(ctx, 400_000 if ctx.thorough() else 200_000)
 
 
 def replay(ctx: Ctx, payload):
     c = payload['case']
-    if 'reference_case' in c:
+    if 'pipeline_case' in c:
+        evaluate_pipeline(ctx, [c['pipeline_case']])
+    elif 'reference_case' in c:
         evaluate_reference(ctx, [c['reference_case']])
     elif 'birthday' in c:
         birthday(ctx, c['birthday'])
@@ -473,5 +556,6 @@ def search(ctx: Ctx):
     cases = [gen_case(sub.rng, True) for _ in range(3200)]
     evaluate(sub, cases, oracle_only=True)
     evaluate_reference(sub, [gen_reference_case(sub.rng) for _ in range(1500)])
+    evaluate_pipeline(sub, [gen_pipeline_case(sub.rng) for _ in range(1000)])
     birthday(sub, 400_000)
     return sub.oracle_failures
